@@ -310,6 +310,7 @@ fn programs() -> Vec<(&'static str, Option<String>)> {
         ("last line untokenizable", Some("10 PRINT 1\n20 PRINT \"WORLD\n".into())),
         ("only line untokenizable, no final newline", Some("10 %".into())),
         // long enough for one LIST to hand over dozens of records in a single call
+        ("loop through line zero", Some("0 X = X + 1\n1 GOTO 0\n".into())),
         ("forty lines", Some((1..=40).map(|i| format!("{} PRINT {}\n", i * 10, i)).collect::<String>())),
     ]
 }
